@@ -59,6 +59,8 @@ pub fn gen_inserts(rng: &mut Rng, maxn: usize, max_entry: Option<usize>, thresho
     let pool = gen::gen_keys(rng, pool_n, class, 1024);
     let mut out = Vec::with_capacity(n);
     let size_style = rng.below(4);
+    let mut volume = 0usize;
+    let volume_cap = if maxn > 1000 { 6 << 20 } else { 3 << 19 };
     for i in 0..n {
         let mut key = if pool.is_empty() { Vec::new() } else { pool[rng.usize_below(pool.len())].clone() };
         let mut pad = match size_style {
@@ -95,6 +97,11 @@ pub fn gen_inserts(rng: &mut Rng, maxn: usize, max_entry: Option<usize>, thresho
             }
         }
         pad = pad.min(60_000);
+        // bound the total volume of one history (every knob setting re-runs it and keeps a transcript)
+        volume += key.len() + pad + 6;
+        if volume > volume_cap {
+            pad = pad.min(16);
+        }
         out.push((B(key), B(gen::record(i as u32, pad))));
     }
     out
